@@ -7,6 +7,7 @@ package main
 // storms run subscribers and an emitter concurrently and check the window property directly.
 
 import (
+	"context"
 	"encoding/binary"
 	"fmt"
 	"io/ioutil"
@@ -278,6 +279,20 @@ func execSg(op string) func(a []string) string {
 				return "error:" + err.Error()
 			}
 			return strconv.Itoa(len(w.conns) - 1)
+		case "observe":
+			// a client turns the object's statistics or its tracing on: every message then reaches the
+			// object through a wrapper of the connection's channel; subscriptions are what they were
+			obj := bus.MakeObject(w.conns[0].proxy)
+			var err error
+			if a[0] == "stats" {
+				err = obj.EnableStats(true)
+			} else {
+				err = obj.EnableTrace(true)
+			}
+			if err != nil {
+				return "error:" + err.Error()
+			}
+			return "ok"
 		case "hold":
 			w.conns[n(0)].hold.set(true)
 			return "ok"
@@ -318,6 +333,32 @@ func execSg(op string) func(a []string) string {
 				return fmt.Sprintf("acked %d", gid)
 			}
 			return fmt.Sprintf("pending %d", gid)
+		case "subfail":
+			// a subscription that fails: the context of the proxy is over already, the registration is not
+			// even sent.  Nothing may remain of it: the next subscriber of the connection registers
+			ctx, stop := context.WithCancel(context.Background())
+			stop()
+			proxy, err := w.conns[n(0)].cache.Proxy("PingPong", 1)
+			if err != nil {
+				return "error:" + err.Error()
+			}
+			done := make(chan error, 1)
+			go func() {
+				cancel, _, err := proxy.WithContext(ctx).SubscribeID(102)
+				if err == nil {
+					cancel()
+				}
+				done <- err
+			}()
+			select {
+			case err := <-done:
+				if err == nil {
+					return "subscribed"
+				}
+				return "failed"
+			case <-time.After(3 * time.Second):
+				return "stuck"
+			}
 		case "cancel":
 			s := w.subs[n(0)]
 			if !sgWait(s.acked, 10*time.Millisecond) {
@@ -617,7 +658,7 @@ func sgStorm(a []string) string {
 }
 
 func init() {
-	for _, op := range []string{"oterm", "holdunreg", "reset", "conn", "hold", "release", "sub", "cancel", "emit", "call", "got", "osub", "ocancel", "oemit", "ogot"} {
+	for _, op := range []string{"subfail", "observe", "oterm", "holdunreg", "reset", "conn", "hold", "release", "sub", "cancel", "emit", "call", "got", "osub", "ocancel", "oemit", "ogot"} {
 		executors["sg."+op] = execSg(op)
 	}
 	executors["sg.burstcancel"] = func(a []string) string {
@@ -651,6 +692,10 @@ func runC13(r *Rand, tier string, o *Out) {
 		nconn := 1 + r.Intn(3)
 		for k := 0; k < nconn; k++ {
 			o.Do("P", "sg.conn", false)
+		}
+		if r.Chance(30) {
+			o.Do("P", "sg.observe "+[]string{"stats", "trace"}[r.Intn(2)], false)
+			o.Count("object:statistics-or-tracing-on")
 		}
 		type sub struct {
 			conn             int
@@ -742,6 +787,18 @@ func runC13(r *Rand, tier string, o *Out) {
 					o.Do("P", fmt.Sprintf("sg.oemit %d", emitN), true)
 					o.Count("op:other-object-emit")
 				}
+			case c < 78:
+				// a subscription that fails, on a connection that has no subscriber at this moment
+				free := !held[k] && waiting[k] == 0
+				for _, sb := range subs {
+					if sb.conn == k && !(sb.acked && sb.cancelled && !sb.pendingCancel) {
+						free = false
+					}
+				}
+				if free {
+					o.Do("P", fmt.Sprintf("sg.subfail %d", k), true)
+					o.Count("op:subscription-that-fails")
+				}
 			case c < 82:
 				if !held[k] {
 					o.Do("P", fmt.Sprintf("sg.call %d", k), true)
@@ -793,6 +850,14 @@ func runC13(r *Rand, tier string, o *Out) {
 	// the witnesses of the two repaired defects
 	for _, l := range []string{
 		"sg.reset", "sg.conn", "sg.hold 0", "sg.sub 0", "sg.sub 0", "sg.emit 1", "sg.release 0", "sg.emit 2", "sg.got 0", "sg.got 1",
+	} {
+		o.Do("P", l, true)
+	}
+	// a failed subscription, then ordinary ones on the same connection
+	emitN += 2
+	for _, l := range []string{
+		"sg.reset", "sg.conn", "sg.subfail 0", "sg.sub 0", fmt.Sprintf("sg.emit %d", emitN-1), "sg.got 0", "sg.cancel 0", "sg.subfail 0", "sg.sub 0",
+		fmt.Sprintf("sg.emit %d", emitN), "sg.got 0", "sg.got 1",
 	} {
 		o.Do("P", l, true)
 	}
